@@ -89,6 +89,12 @@ def subjects():
                                   "cancel": [["resolve_via_poll", "ex.L0.poll", ["ret", True]]]}]),
                  ["submit", "ex", "S", {"script": TAG}], ["sleep", 0.1]]
         S["poll/cancelfn-resolves"]["variants"][kind] = {"setup": setup, "complete": [["sleep", 1.5]]}
+    # retry over a synchronous base: the callable, running on the retry thread inside the submission of its own attempt, calls
+    # cancel() on its own future (second attempt, when it can know the future)
+    S["retry/self-cancel"] = {"variants": {}}
+    for kind in ("value", "error"):
+        script = [["raise", "E0"], ["cancel", "S", ["tag"] if kind == "value" else ["raise", "E2"]]]
+        S["retry/self-cancel"]["variants"][kind] = {"setup": [_stack("sync", [RETRY]), ["submit", "ex", "S", {"script": script}]], "complete": [["sleep", 0.75]]}
     # combinators over source futures
     combs = {
         "f_nocancel": (["f_nocancel", ["src", "a"]], 1), "f_proxy": (["f_proxy", ["src", "a"]], 1),
